@@ -6,7 +6,7 @@ LEVEL = "exploration"
 RULE = "generated programs of the program world (see C01), observed at every suspension and from probes; see DESIGN.md section 5"
 ASSUMPTIONS = ["same program world as C01/C02"]
 REAL_VS_STUB = {"real": ["stackscope", "CPython of each leg", "contextlib"], "stub": ["generated programs", "shadow managers", "driver"]}
-RARE_PROBES = []
+RARE_PROBES = ["c09_prior_fault_fired"]
 LEGS = [
     {"name": "w312", "python": "3.12", "quick": 5000, "thorough": 120000, "quick_s": 50, "thorough_s": 420},
     {"name": "w311", "python": "3.11", "quick": 2000, "thorough": 50000, "quick_s": 40, "thorough_s": 300},
